@@ -224,9 +224,22 @@ def render (c : List String) : List String :=
 def lenClass (n : Nat) : String :=
   if n % 70 == 0 then "len%70=0" else if n % 70 == 1 then "len%70=1" else "len%70=other"
 
-/-- the judge's domain for a Build round trip: `wfBuild`, except that a blank inside GffVersion
-(a field the property does not speak about) does not take the record out of the domain -/
-def inBuildDomain (x : Gff) : Bool := wfBuild { x with gffVersion := x.gffVersion.filter (· != ' ') }
+/-- the judge's domain for a Build round trip: the quantifier as worded (`wfBuildQ`: a seqid may begin
+with `#`), and a blank inside GffVersion (a field the property does not speak about) does not take the
+record out of the domain -/
+def inBuildDomain (x : Gff) : Bool := wfBuildQ { x with gffVersion := x.gffVersion.filter (· != ' ') }
+
+/-- a reply that says the library call did not come back normally: harness status `timeout`, `crash`,
+`race`, `panic`, `err`, a missing reply, or a recovered panic of Parse (`ok … panic`) -/
+def abnormal (out : List String) : Bool :=
+  match out with
+  | "ok" :: rest => rest.contains "panic"
+  | _ => true
+
+/-- verdict of the property on a case OUTSIDE the quantifier: nothing is demanded of the result, but a
+call that hangs, crashes or panics where the model predicts a normal return is a failure all the same -/
+def outsideVerdict (same : Bool) (out : List String) : Option Bool :=
+  if abnormal out && !same then some false else none
 
 def judgeBuild (exact : Bool) (r out : List String) : Verdict :=
     match decodeBuild r with
@@ -245,9 +258,10 @@ def judgeBuild (exact : Bool) (r out : List String) : Verdict :=
       let reCls := if x.regionEnd == (x.seq.length : Int) then "re=len" else if x.regionEnd == 0 then "re=0"
                    else if x.regionEnd % 70 == 0 then "re=70k" else "re=other"
       let same := if exact then out == m else canonReply out == canonReply m
-      { corr := same, judge := if inDom then some j else none,
+      { corr := same, judge := if inDom then some j else outsideVerdict same out,
         cls := (if triv then "triv:" else "") ++ (if exact then "buildx/" else "build/") ++ lenClass x.seq.length ++ "/" ++ reCls
                ++ (if x.features.any (fun f => f.attrs.isEmpty) then "/noattr" else "")
+               ++ (if hashSeqid x then "/kf:C14-hash-seqid" else "")
                ++ (if same && out != m then "/other-wrap" else ""),
         detail := if same && (j || !inDom) then "" else lineOf (m.drop 2) }
 
@@ -265,7 +279,7 @@ def judge (c out : List String) : Verdict :=
         | some (y, rw) => denoted d y && rw == "rw-same"
         | none => false
       let triv := d.feats.isEmpty && d.seq.length < 70
-      { corr := out == m, judge := if inDom then some j else none,
+      { corr := out == m, judge := if inDom then some j else outsideVerdict (out == m) out,
         cls := (if triv then "triv:" else "") ++ "layout/" ++ lenClass d.seq.length
                ++ (if ℓ.trailingSemi then "/semi" else "") ++ (if ℓ.crlf then "/crlf" else "")
                ++ (if !ℓ.preRegion.isEmpty then "/pre" else "")
